@@ -545,6 +545,16 @@ func (ll LookupList) tryReorder(chunks []layoutChunk) []layoutChunk {
 	return res
 }
 
+// offs16 converts an offset inside a subtable to its 16-bit representation.
+// It panics if the offset does not fit: the data cannot be represented in
+// this subtable format.
+func offs16(x int) uint16 {
+	if x < 0 || x > 0xFFFF {
+		panic("sfnt/opentype/gtab: subtable too large, offset does not fit into 16 bits")
+	}
+	return uint16(x)
+}
+
 // Extension Substitution/Positioning Subtable Format 1
 // https://docs.microsoft.com/en-us/typography/opentype/spec/gsub#71-extension-substitution-subtable-format-1
 // https://docs.microsoft.com/en-us/typography/opentype/spec/gpos#lookuptype-9-extension-positioning
